@@ -1,14 +1,20 @@
 #!/bin/sh
-# Offline setup after a fresh restore: build the harness against /repo and self-check the TLA+ oracle libraries.
-set -e
+# Offline setup after a fresh restore: pre-build the harness binaries against /repo (every check rebuilds
+# incrementally anyway) and self-check the TLA+ oracle libraries.  Pre-building is best effort.
 cd "$(dirname "$0")"
 export CARGO_NET_OFFLINE=true
 mkdir -p run evidence
 python3 - <<'PY'
-import sys, os
+import sys, os, glob
 sys.path.insert(0, "checks")
 import framework as fw
-fw.build("std64", "c01")
+bins = sorted(os.path.basename(p)[:-3] for p in glob.glob(os.path.join(fw.HARNESS, "src", "bin", "*.rs")))
+plan = [("std64", b) for b in bins] + [(v, b) for v in ("release", "w32", "nostd") for b in ("c01", "c02", "c09", "c19")]
+for v, b in plan:
+    try:
+        fw.build(v, b)
+    except Exception as ex:
+        print("setup: pre-build of %s/%s failed (the check will report it): %s" % (v, b, ex))
 d = os.path.join(fw.RUN, "setup"); os.makedirs(d, exist_ok=True)
 print(fw.lib_selfcheck(d))
 PY
